@@ -406,13 +406,15 @@ func (n *fwNode) group() string {
 
 // fwWrappers lists the forms a spatial query q is evaluated in.
 //
-// quick: bare; Typed x 5 types; Intersection with #t=a and #e=y in both
-// orders; Union with #t=a in both orders; Typed[slot type] over those six
+// quick (22 forms): bare; Typed x 5 types; Intersection with #t=a and #e=y in
+// both orders; Union with #t=a in both orders; Typed[slot type] over those six
 // Intersections / Unions; Intersection of Typed[slot type](q) with #t=a in both
-// orders; Intersection with the second cap in both orders (22 forms).
-// thorough: additionally Union with #e=y, the nested forms for all three
-// geometry types, Union of Typed with #t=a, Union with the second cap (47).
-func fwWrappers(tier string, slotType fkind) []*fwNode {
+// orders; Intersection with the second cap in both orders.
+// thorough (27 forms): additionally Union with #e=y in both orders, Union of
+// Typed[slot type](q) with #t=a in both orders, Union with the second cap; in
+// the worlds with sentinels (the only ones holding features of other types)
+// the nested forms are taken for all three geometry types (47 forms).
+func fwWrappers(tier string, slotType fkind, sentinels bool) []*fwNode {
 	q, q2, ta, te := &fwNode{op: "q"}, &fwNode{op: "q2"}, &fwNode{op: "ta"}, &fwNode{op: "te"}
 	typed := func(t b6.FeatureType, k *fwNode) *fwNode { return &fwNode{op: "typed", t: t, kids: []*fwNode{k}} }
 	and := func(a, b *fwNode) *fwNode { return &fwNode{op: "and", kids: []*fwNode{a, b}} }
@@ -427,7 +429,7 @@ func fwWrappers(tier string, slotType fkind) []*fwNode {
 		out = append(out, or(te, q), or(q, te))
 	}
 	nested := []b6.FeatureType{ftypeOf(slotType)}
-	if thorough {
+	if thorough && sentinels {
 		nested = []b6.FeatureType{b6.FeatureTypePoint, b6.FeatureTypePath, b6.FeatureTypeArea}
 	}
 	for _, t := range nested {
@@ -459,9 +461,10 @@ type fwCase struct {
 }
 
 // fwAlphabetSize, fwMaxLen: quick enumerates the sequences of 1..4 slots over
-// {M-,Ma,R-,Ra}; thorough the sequences of 1..5 slots over {M-,Ma,R-,Ra,Fa}.
-func fwAlphabetSize(tier string) int {
-	if tier == "thorough" {
+// {M-,Ma,R-,Ra}; thorough the sequences of 1..4 slots over {M-,Ma,R-,Ra,Fa} and
+// the sequences of 5 slots over {M-,Ma,R-,Ra}.
+func fwAlphabetSize(tier string, length int) int {
+	if tier == "thorough" && length <= 4 {
 		return 5
 	}
 	return 4
@@ -479,7 +482,7 @@ func fwPatterns(tier string) [][]int {
 	for l := 1; l <= fwMaxLen(tier); l++ {
 		radices := make([]int, l)
 		for i := range radices {
-			radices[i] = fwAlphabetSize(tier)
+			radices[i] = fwAlphabetSize(tier, l)
 		}
 		n := kit.Product(radices)
 		for i := int64(0); i < n; i++ {
@@ -578,7 +581,7 @@ func runFilterCase(geos []*fwGeo, tier string, c *fwCase, idx int64) kit.Result 
 	if len(b.feats) != len(s.feats) {
 		r.AddOutcome(fmt.Sprintf("fw:world-reports-%d-of-%d-features:%s", len(b.feats), len(s.feats), c.kind))
 	}
-	wrappers := fwWrappers(tier, c.slotType)
+	wrappers := fwWrappers(tier, c.slotType, c.sentinels)
 	viol := map[string][]string{}
 	addViol := func(cl, line string) {
 		if len(viol[cl]) < 6 {
